@@ -500,6 +500,19 @@ def verdictEntry (s : S α) (w : W α) (ent : Entry α) (t : List String) : Stri
   -- (a call that raises is judged above: `transparent_on_raise`)
   let bad := implOk && sel.any (fun iv => room iv && d1.getD iv.1 "nan" == "nan")
   if bad then "FAIL:one_sided_fallback" else
+  -- five-point scheme: its one-sided formulas need TWO steps on one side; with room for one step only
+  -- (and less than two on either side) it stores the NaN marker although "one-sided probes" would be
+  -- possible (known finding C12-5pt-needs-two-steps)
+  let room1 (iv : Nat × Nat) : Bool :=
+    match find? fnB.params iv.2 with
+    | none => false
+    | some b =>
+      let x := b.value
+      let hh := (one + abs x) * w.h
+      (feasibleAt iv.2 (x - hh) || feasibleAt iv.2 (x + hh)) && gtb w.h zero
+  let bad5 := implOk && w.scheme == .five &&
+    sel.any (fun iv => idx w.vars iv.2 == some iv.1 && room1 iv && !room iv && d1.getD iv.1 "nan" == "nan")
+  if bad5 then "FAIL:five_point_needs_two_steps" else
   -- two-point scheme, all ten tries (left, right, then halved steps alternately): the NaN marker only
   -- when none of them is accepted by the constraints with a value below VERY_BIG
   let tries (h0 : α) : List α :=
@@ -636,7 +649,8 @@ def verdictExact (poly : List (Mono Rat)) (wPre wB : W Rat) (callerList : PList 
       if acc != "ok" || iv.1 == jv.1 then acc else
       match posOf own iv.2, posOf own jv.2 with
       | some k, some l =>
-        if free iv.2 && free jv.2 && degIn poly k ≤ 2 && degIn poly l ≤ 2 then
+        -- (constraints or not: when the call returns, the 2×2 stencil was evaluated in full)
+        if degIn poly k ≤ 2 && degIn poly l ≤ 2 then
           let tok := ((xs.getD iv.1 []).getD jv.1 "nan")
           if exactTok tok (D.dx k l x) false then acc else "FAIL:cross_exact"
         else acc
